@@ -218,10 +218,28 @@ func Match(r *wire.Req, foldedNames map[string]bool, o *Obs) string {
 	if strings.Join(want, "\n") != strings.Join(got, "\n") {
 		return fmt.Sprintf("header fields differ:\n got  %q\n want %q", got, want)
 	}
-	wt := wire.NormLoose(r.Trailers, foldedNames)
-	gt := wire.NormLoose(o.Trailers, foldedNames)
+	// a field sent on several lines may reach the handler as several entries or combined into one
+	// ("v, second-line", RFC 7230 3.2.2): both sides are compared in the combined form
+	wt := wire.NormLoose(combineSameName(r.Trailers), foldedNames)
+	gt := wire.NormLoose(combineSameName(o.Trailers), foldedNames)
 	if strings.Join(wt, "\n") != strings.Join(gt, "\n") {
 		return fmt.Sprintf("declared trailers differ: got %q want %q", gt, wt)
 	}
 	return ""
+}
+
+// combineSameName joins the values of entries with the same name (ignoring case), in order, with ", ".
+func combineSameName(kvs []wire.KV) []wire.KV {
+	var out []wire.KV
+outer:
+	for _, kv := range kvs {
+		for i := range out {
+			if strings.EqualFold(out[i].K, kv.K) {
+				out[i].V = strings.Trim(wire.Unfold(out[i].V), " \t") + ", " + strings.Trim(wire.Unfold(kv.V), " \t")
+				continue outer
+			}
+		}
+		out = append(out, kv)
+	}
+	return out
 }
